@@ -424,7 +424,9 @@ Inductive op :=
 | OpFirst | OpLast | OpNext | OpPrev | OpClear
 | OpSeek (x : coord) | OpSeekIndex (i : Z)
 | OpCopy                       (* other := cur; cur := cur.copy()  (tsk_tree_copy copies every field) *)
-| OpSwap.                      (* continue with the other tree *)
+| OpSwap                       (* continue with the other tree *)
+| OpLLSeek (x : coord)         (* tree._ll_tree.seek(x): only the C guard of tsk_tree_seek *)
+| OpLLSeekIndex (i : Z).       (* tree._ll_tree.seek_index(i): only the C guard of tsk_tree_seek_index *)
 
 (* what the Python call returned / raised *)
 Definition RET_NONE : Z := 2.
@@ -462,6 +464,8 @@ Definition py_step_fuel (fuel : nat) (m : counts_mode) (ts : tseq) (st : tree * 
       else lib_call cur other (tree_seek_index fuel m ts cur i) RET_NONE
   | OpCopy => Ok ((cur, cur), RET_NONE)
   | OpSwap => Ok ((other, cur), RET_NONE)
+  | OpLLSeek x => lib_call cur other (tree_seek fuel m ts cur x) RET_NONE
+  | OpLLSeekIndex i => lib_call cur other (tree_seek_index fuel m ts cur i) RET_NONE
   end.
 
 Definition py_step (m : counts_mode) (ts : tseq) := py_step_fuel (seek_fuel ts) m ts.
